@@ -2,8 +2,13 @@ package props
 
 import (
 	"context"
+	"errors"
 	"fmt"
+	"os"
+	"path/filepath"
 	"reflect"
+	"regexp"
+	"sort"
 	"time"
 
 	blsu "github.com/protolambda/bls12-381-util"
@@ -157,7 +162,10 @@ func c03Mutators() []mutator {
 			b.Message.Body.RandaoReveal = sim.Sign(m.sk(b.Message.ProposerIndex), m.sp.SigningRoot(refspec.U64Root(ep), m.sp.Domain(m.pre, refspec.DOMAIN_BEACON_PROPOSER, ep)))
 			return true
 		}},
-		{"randao/undecodable", false, func(m *mutCtx, b *refspec.SignedBlock) bool { b.Message.Body.RandaoReveal = [96]byte{1, 2, 3}; return true }},
+		{"randao/undecodable", false, func(m *mutCtx, b *refspec.SignedBlock) bool {
+			b.Message.Body.RandaoReveal = [96]byte{1, 2, 3}
+			return true
+		}},
 	}
 	// ---- attestations
 	att := func(name string, f func(m *mutCtx, a *refspec.Attestation, b *refspec.SignedBlock) bool) mutator {
@@ -301,7 +309,10 @@ func c03Mutators() []mutator {
 			resignAtt(m, a, &v, refspec.DOMAIN_BEACON_ATTESTER)
 			return true
 		}),
-		att("signature-flipped", func(m *mutCtx, a *refspec.Attestation, b *refspec.SignedBlock) bool { a.Signature[50] ^= 4; return true }),
+		att("signature-flipped", func(m *mutCtx, a *refspec.Attestation, b *refspec.SignedBlock) bool {
+			a.Signature[50] ^= 4
+			return true
+		}),
 		att("duplicated-in-block", func(m *mutCtx, a *refspec.Attestation, b *refspec.SignedBlock) bool {
 			b.Message.Body.Attestations = append(b.Message.Body.Attestations, deepCopy(*a))
 			return true
@@ -543,6 +554,23 @@ func c03Mutators() []mutator {
 			return false
 		}),
 	)
+	muts = append(muts, mutator{"exit/added-for-a-validator-not-active-long-enough", false, func(m *mutCtx, b *refspec.SignedBlock) bool {
+		// an otherwise valid, correctly signed exit of a validator younger than SHARD_COMMITTEE_PERIOD, appended to the block
+		cur := m.sp.CurrentEpoch(m.pre)
+		if uint64(len(b.Message.Body.VoluntaryExits)) >= m.sp.MAX_VOLUNTARY_EXITS {
+			return false
+		}
+		for i := range m.pre.Validators {
+			v := &m.pre.Validators[i]
+			if refspec.IsActive(v, cur) && v.ExitEpoch == refspec.FarFuture && cur < v.ActivationEpoch+m.sp.SHARD_COMMITTEE_PERIOD {
+				e := refspec.SignedVoluntaryExit{Message: refspec.VoluntaryExit{Epoch: cur, ValidatorIndex: uint64(i)}}
+				resignExit(m, &e, exitDomain(m, cur))
+				b.Message.Body.VoluntaryExits = append(b.Message.Body.VoluntaryExits, e)
+				return true
+			}
+		}
+		return false
+	}})
 	// ---- bls changes
 	muts = append(muts,
 		mutator{"bls-change/wrong-from-key", false, func(m *mutCtx, b *refspec.SignedBlock) bool {
@@ -650,8 +678,14 @@ func c03Mutators() []mutator {
 		}}
 	}
 	muts = append(muts,
-		pay("parent-hash", refspec.Bellatrix, func(m *mutCtx, p *refspec.ExecutionPayload, b *refspec.SignedBlock) bool { p.ParentHash[1] ^= 1; return true }),
-		pay("prev-randao", refspec.Bellatrix, func(m *mutCtx, p *refspec.ExecutionPayload, b *refspec.SignedBlock) bool { p.PrevRandao[1] ^= 1; return true }),
+		pay("parent-hash", refspec.Bellatrix, func(m *mutCtx, p *refspec.ExecutionPayload, b *refspec.SignedBlock) bool {
+			p.ParentHash[1] ^= 1
+			return true
+		}),
+		pay("prev-randao", refspec.Bellatrix, func(m *mutCtx, p *refspec.ExecutionPayload, b *refspec.SignedBlock) bool {
+			p.PrevRandao[1] ^= 1
+			return true
+		}),
 		pay("timestamp", refspec.Bellatrix, func(m *mutCtx, p *refspec.ExecutionPayload, b *refspec.SignedBlock) bool { p.Timestamp++; return true }),
 		pay("withdrawal-dropped", refspec.Capella, func(m *mutCtx, p *refspec.ExecutionPayload, b *refspec.SignedBlock) bool {
 			if len(p.Withdrawals) == 0 {
@@ -759,6 +793,7 @@ func init() {
 			"a byte-level mutant changes the signed message or the signature, so the specification rejects it (2^-128): zrnt must refuse to decode it or return an error"),
 		Batches:      func(tier string) int { return 16 },
 		ChildTimeout: func(string) time.Duration { return 90 * time.Minute },
+		Finish:       finishC03,
 		Run:          runC03,
 		RequiredFor: func(tier string) []string {
 			if tier == "thorough" {
@@ -904,6 +939,10 @@ func c03Base(b *fw.B, ctx context.Context, c *sim.Chain, built *sim.Built, muts 
 			continue
 		}
 		if refErr != nil {
+			var rej *refspec.Rejection
+			if errors.As(refErr, &rej) {
+				b.SetAdd("spec_assertions_violated", rej.Rule)
+			}
 			b.Inc("rejected_" + mu.name)
 			b.Nontrivial(built.Bytes[:64], mu.name)
 			if decErr == nil && zErr == nil {
@@ -963,5 +1002,63 @@ func c03Base(b *fw.B, ctx context.Context, c *sim.Chain, built *sim.Built, muts 
 		if decErr == nil && zErr == nil {
 			b.Violate("accepted-invalid/byte-mutant", fmt.Sprintf("zrnt accepted a byte-level mutant of a %s block at slot %d with full validation", refspec.ForkNames[fork], built.Signed.Message.Slot), map[string]any{"block_ssz_hex": fmt.Sprintf("%x", data)})
 		}
+	}
+}
+
+// assertions of the reference that no block mutant can trip (not expressible in SSZ, another check's domain, or guarded earlier)
+var c03NotTrippable = map[string]string{
+	"block.slot == state.slot":                                      "state_transition always runs process_slots to block.slot first",
+	"block.slot > state.latest_block_header.slot":                   "implied once process_slots accepted block.slot (state.slot >= latest header slot)",
+	"sync aggregate: bitvector length":                              "not expressible: the bitvector has a fixed SSZ length",
+	"sync aggregate: committee pubkey not in registry":              "state invariant",
+	"payload: SSZ type limits":                                      "not expressible in a decodable block",
+	"payload: no execution engine":                                  "harness configuration",
+	"payload: engine error: %v":                                     "C18's domain (engine faults)",
+	"payload: execution_engine.verify_and_notify_new_payload":       "C18's domain (engine faults)",
+	"get_next_sync_committee_indices: no active validators":         "state invariant",
+	"compute_proposer_index: no active validators":                  "state invariant",
+	"eth_aggregate_pubkeys: invalid pubkey":                         "state invariant",
+	"eth_aggregate_pubkeys: %v":                                     "state invariant",
+	"get_block_root_at_slot: slot %d out of range at state slot %d": "guarded by the inclusion-window asserts",
+	"block.state_root != hash_tree_root(state)":                     "tripped by every outer mutant with a changed body; recorded when a mutant gets that far",
+}
+
+// finishC03 reconciles the assertions the reference tripped with the list of reject(...) sites in its source.
+func finishC03(m *fw.Merged) {
+	files, _ := filepath.Glob(filepath.Join(fw.Root, "refspec", "*.go"))
+	re := regexp.MustCompile(`reject\("((?:[^"\\]|\\.)*)"`)
+	all := map[string]bool{}
+	for _, f := range files {
+		data, err := os.ReadFile(f)
+		if err != nil {
+			continue
+		}
+		for _, mm := range re.FindAllStringSubmatch(string(data), -1) {
+			all[mm[1]] = true
+		}
+	}
+	if len(all) == 0 {
+		m.Inconclusive = append(m.Inconclusive, "cannot scan the reference model's assertions")
+		return
+	}
+	seen := m.Sets["spec_assertions_violated"]
+	var never []string
+	for a := range all {
+		if _, ok := seen[a]; ok {
+			continue
+		}
+		if _, ok := c03NotTrippable[a]; ok {
+			continue
+		}
+		never = append(never, a)
+	}
+	sort.Strings(never)
+	m.Extra["spec_assertions_in_reference"] = len(all)
+	m.Extra["spec_assertions_not_trippable_by_blocks"] = c03NotTrippable
+	m.Extra["spec_assertions_never_violated"] = never
+	m.Counters["spec_assertions_violated_distinct"] = int64(len(seen))
+	m.Counters["spec_assertions_never_violated"] = int64(len(never))
+	if len(never) > 0 && m.Tier == "thorough" {
+		m.Inconclusive = append(m.Inconclusive, fmt.Sprintf("assertions of the specification no mutant ever violated: %v", never))
 	}
 }
